@@ -1,6 +1,6 @@
 // Kani companions of the bits unit: full-domain, loop-free or width-bounded harnesses on the real crate
 //@target src/record.rs
-//@harness integer_bits_is_width serves=C12,C10,C08 kind=complete fn=integer_bits note="all i64 x i64; reference loop bounded by operand width (65), unwinding assertions on"
+//@harness integer_bits_is_width serves=C12,C10,C08,C01 kind=complete fn=integer_bits note="all i64 x i64; reference loop bounded by operand width (65), unwinding assertions on"
 //@harness serialize_integer_sub_no_overflow serves=C12,C10,C01 kind=complete fn=serialize_integer note="all (min<=value<=max): value-min as computed by serialize_integer does not overflow and equals the mathematical difference"
 //@module
     fn ref_width(min: i64, max: i64) -> usize {
